@@ -400,7 +400,9 @@ def check_C06(run):
     cmds = []
     for tid, vs in per_type.items():
         S = types[tid]
-        wks = ["buffer", "pedantic", {"bounded": "pedantic"}, {"bounded": "buffer"}]
+        # (the last two: a bound far above the capacity of the wrapped buffer - Prepare must reach the wrapped writer)
+        wks = ["buffer", "pedantic", {"bounded": "pedantic"}, {"bounded": "buffer"},
+               {"bounded": "buffer", "limit": 1 << 20}, {"bounded": "pedantic", "limit": 1 << 20}]
         if not has_kind(S, ("flt",)):
             wks += ["constexpr", {"bounded": "constexpr"}]
         for v in pick(vs, 16 if thorough else 4, rng):
@@ -630,7 +632,9 @@ def check_C11(run):
                 continue
             w = {"c": "w", "wk": "pedantic", "cap": 1 << 21, "items": [{"tid": tid, "v": v}], "nolog": 1}
             g = [w, {"c": "r", "rk": "pedantic", "src": "last", "items": [{"tid": tid}], "nolog": 1}]
-            for pv in (per_type.get(tid, [])[:2] + [with_long(S, 5000, 2, base)]):
+            # priors: short values, a long one, and one about three times as long as what is being read (a destination that
+            # must shrink)
+            for pv in (per_type.get(tid, [])[:2] + [with_long(S, 5000, 2, base), with_long(S, 3 * n + 11, 3, base)]):
                 if pv is not None:
                     g.append({"c": "r", "rk": "pedantic", "src": "last", "items": [{"tid": tid, "prior": {"kind": "value", "v": pv}}], "nolog": 1})
             for k in (2, 3, 4):
@@ -1790,7 +1794,7 @@ def random_tl_program(rng, n):
         elif op == "io":
             prog.append(_io_step(rng, pad))
         else:
-            prog.append({"op": op, "slot": rng.randrange(3), "val": rng.randrange(1, 1000)})
+            prog.append({"op": op, "slot": rng.randrange(6), "val": rng.randrange(1, 1000)})
     return prog
 
 
